@@ -34,6 +34,10 @@ def model_line(t):
             f"{','.join(map(str, t['db'])) or '-'} {','.join(map(str, t['other'])) or '-'}")
 
 
+class _Livelock(BaseException):
+    pass
+
+
 def run_real(t):
     """returns the event list (strings as printed by the Lean driver) of one Worker.run() over this task"""
     import peewee as pw
@@ -50,8 +54,13 @@ def run_real(t):
     qmod.sleep = lambda d: None
     has_yield = any(e.startswith("y") for _, e in t["segs"])
 
+    calls = {}
+
     def cleanup(cid):
         events.append(f"c{cid}")
+        calls[cid] = calls.get(cid, 0) + 1
+        if calls[cid] > 8:
+            raise _Livelock(f"clean-up action {cid} called {calls[cid]} times")      # a BaseException: leaves Worker.run
         if cid in t["other"]:
             raise KeyError("cleanup failed")
         if cid in t["db"]:
@@ -123,7 +132,11 @@ def run_real(t):
     pmod.global_abort.clear()
     w = pmod.Worker(queue=q, index=0)
     q.worker = w
-    code = w.run()
+    try:
+        code = w.run()
+    except _Livelock as ex:
+        events.append(f"LIVELOCK({ex})")
+        code = None
     if pmod.global_abort.is_set():
         events.append("A")
         pmod.global_abort.clear()
